@@ -316,6 +316,16 @@ func basePrograms() []program {
 			// one earlier add, then exactly one interval later: the tasks race on the rollover
 			ps = append(ps, program{n: n, phase: 9, pre: 1, preGap: iv - 9, tasks: tasks})
 		}
+		// the tasks start in the last millisecond of a bucket and the single 1 ms tick of the schedule moves the clock into
+		// the next bucket: an operation that has already chosen its bucket is overtaken by the rollover
+		for _, tasks := range [][][]int{
+			{{kAdd}, {kAdd}, {kCount}},
+			{{kAdd}, {kCount}, {kCount}},
+			{{kAdd, kCount}, {kAdd}},
+		} {
+			ps = append(ps, program{n: n, phase: 9, pre: 1, preGap: 0, tasks: tasks})
+			ps = append(ps, program{n: n, phase: 9, pre: 1, preGap: iv, tasks: tasks})
+		}
 	}
 	return ps
 }
